@@ -189,6 +189,12 @@ static void codec_case(const Case &c, FILE *out)
     if (!expand.empty()) { sscanf(expand.c_str(), "%d:%d:%d:%d", &xl, &xt, &xg, &xo); }
     std::vector<std::string> seen;
     std::vector<Cls> listed;
+    // tail=<byte> total=<n>: the word is followed by that byte up to n bytes (default: zeros up to 16), e.g. 60 bytes with
+    // the continuation bit of a variable-length integer set
+    const int tailbyte = (int)strtoul(opt_get(c.opts, "tail", "0").c_str(), NULL, 0);
+    int total_len = atoi(opt_get(c.opts, "total", "16").c_str());
+    if (total_len < 16) { total_len = 16; }
+    if (total_len > 96) { total_len = 96; }
     Memory *m = new Memory();
     m->endian = cpu_list[cpu].default_endian;
     for (size_t i = 0; i < lines.size(); i++)
@@ -200,15 +206,15 @@ static void codec_case(const Case &c, FILE *out)
       for (int a = 0; a < 4; a++)
       {
         if (a > 0 && memcmp(arr[a], arr[0], 4) == 0) { continue; }
-        uint8_t bytes[16];
-        memset(bytes, 0, sizeof(bytes));
+        uint8_t bytes[96];
+        memset(bytes, tailbyte, sizeof(bytes));
         memcpy(bytes, arr[a], 4);
-        for (int k = 0; k < 16; k++) { m->write8(addr + k, bytes[k]); }
+        for (int k = 0; k < total_len; k++) { m->write8(addr + k, bytes[k]); }
         Decoded d1 = decode(fn, cpu, m, addr);
         bool loc = true;
-        if (d1.len >= 1 && d1.len < 16)
+        if (d1.len >= 1 && d1.len < total_len)
         {
-          for (int k = d1.len; k < 16; k++) { m->write8(addr + k, bytes[k] ^ 0xff); }
+          for (int k = d1.len; k < total_len; k++) { m->write8(addr + k, bytes[k] ^ 0xff); }
           Decoded d2 = decode(fn, cpu, m, addr);
           loc = d2.len == d1.len && d2.text == d1.text;
         }
@@ -229,14 +235,14 @@ static void codec_case(const Case &c, FILE *out)
           {
             seen.push_back(blank);
             Cls n; n.len = d1.len; n.tlen = d1.tlen; n.guard = d1.guard; n.loc = loc; n.n = 1;
-            n.w = hex_bytes(bytes, 16); n.text = d1.text;
+            n.w = hex_bytes(bytes, total_len); n.text = d1.text;
             listed.push_back(n);
           }
         }
         if (q == classes.size())
         {
           Cls n; n.len = d1.len; n.tlen = tl; n.guard = d1.guard; n.loc = loc; n.n = 0;
-          n.w = hex_bytes(bytes, 16); n.text = d1.text;
+          n.w = hex_bytes(bytes, total_len); n.text = d1.text;
           classes.push_back(n);
         }
         classes[q].n++;
